@@ -4,18 +4,33 @@ import re
 import vlib
 from units import broker_common
 
-def build(U):
-    broker_common.head(U)
-    T = broker_common.types(U)
-    U.add(T)
-    U.add('''
-pub assume_specification<T: Clone, S: Clone, A: Allocator + Clone>[ <HashSet<T, S, A> as Clone>::clone ](s: &HashSet<T, S, A>) -> (r: HashSet<T, S, A>) ensures r@ == s@;
-impl Clone for ProxyResource { #[verifier::external_body] fn clone(&self) -> (r: Self) ensures r == *self { unimplemented!() } }
+ALLOCATABLE_SPEC = '''
 // statement of C06: "Proxies marked failed or under failure report are never allocated to a cluster"
 pub open spec fn allocatable(s: MetaStore, p: ProxyResource) -> bool {
     p.cluster is None && !s.failed_proxies@.contains(p.proxy_address) && !s.failures@.contains_key(p.proxy_address)
 }
-pub struct MetaStoreQuery<'a> { pub store: &'a MetaStore }
+'''
+SPEC = ALLOCATABLE_SPEC + '''
+// a (host, proxy address) pair taken from a registered, allocatable proxy
+pub open spec fn from_free(s: MetaStore, hp: HostProxy) -> bool {
+    exists|p: ProxyResource| #![trigger s.all_proxies@.values().contains(p)] s.all_proxies@.values().contains(p) && allocatable(s, p) && hp.proxy_address == p.proxy_address && hp.host == p.host
+}
+'''
+GET_FREE_RESOURCE_HEADER = '''    pub fn get_free_proxy_resource(&self) -> (r: Vec<ProxyResource>)
+        requires vstd::std_specs::hash::obeys_key_model::<String>(),
+        ensures forall|i: int| 0 <= i < r@.len() ==> allocatable(*self.store, #[trigger] r@[i]) && self.store.all_proxies@.values().contains(r@[i]),'''
+GET_FREE_PROXIES_HEADER = '''    pub fn get_free_proxies(&self) -> (r: Vec<HostProxy>)
+        requires vstd::std_specs::hash::obeys_key_model::<String>(),
+        ensures forall|i: int| 0 <= i < r@.len() ==> from_free(*self.store, #[trigger] r@[i]),'''
+
+def build(U):
+    broker_common.head(U)
+    T = broker_common.types(U, store_types=[('struct', 'HostProxy')] + broker_common.STORE_TYPES)
+    U.add(T)
+    U.add('''
+pub assume_specification<T: Clone, S: Clone, A: Allocator + Clone>[ <HashSet<T, S, A> as Clone>::clone ](s: &HashSet<T, S, A>) -> (r: HashSet<T, S, A>) ensures r@ == s@;
+impl Clone for ProxyResource { #[verifier::external_body] fn clone(&self) -> (r: Self) ensures r == *self { unimplemented!() } }
+''' + SPEC + '''pub struct MetaStoreQuery<'a> { pub store: &'a MetaStore }
 impl<'a> MetaStoreQuery<'a> {
 ''')
     Q = U.src('src/broker/query.rs')
@@ -44,14 +59,27 @@ impl<'a> MetaStoreQuery<'a> {
     if n == 0:
         f._lost('D8 continue pattern')
     U.log.rule('D8', f, '%d continue(s) -> nested if' % n)
-    f.header('''    pub fn get_free_proxy_resource(&self) -> (r: Vec<ProxyResource>)
-        requires vstd::std_specs::hash::obeys_key_model::<String>(),
-        ensures forall|i: int| 0 <= i < r@.len() ==> allocatable(*self.store, #[trigger] r@[i]),''')
+    f.header(GET_FREE_RESOURCE_HEADER)
     f.loop_spec(0, '''            invariant
                 vstd::std_specs::hash::obeys_key_model::<String>(),
                 failed_proxies@ == self.store.failed_proxies@, failures@.dom() =~= self.store.failures@.dom(),
-                forall|i: int| 0 <= i < free_proxies@.len() ==> allocatable(*self.store, #[trigger] free_proxies@[i]),''', itname='it')
+                forall|i: int| 0 <= i < free_proxies@.len() ==> allocatable(*self.store, #[trigger] free_proxies@[i]),
+                forall|i: int| 0 <= i < free_proxies@.len() ==> self.store.all_proxies@.values().contains(#[trigger] free_proxies@[i]),''', itname='it')
     U.add_fn(f)
+    # get_free_proxies: the same list, reduced to (host, proxy address)
+    g = Q.fn('get_free_proxies')
+    m = re.search(r'self\.get_free_proxy_resource\(\)\s*\.into_iter\(\)\s*\.map\(\|proxy_resource\| (HostProxy \{.*?\n\s*\})\)\s*\.collect\(\)', g.text, re.S)
+    if not m:
+        g._lost('D2b: into_iter().map(|x| E).collect() as the result expression')
+    g.text = (g.text[:m.start()] + 'let verif_src = self.get_free_proxy_resource();\n        let mut verif_acc: Vec<HostProxy> = Vec::new();\n        for proxy_resource in verif_src.into_iter() {\n            verif_acc.push('
+              + m.group(1) + ');\n        }\n        verif_acc' + g.text[m.end():])
+    U.log.rule('D2b', g, 'R.into_iter().map(|x| E).collect() as result expression -> push loop (E verbatim)')
+    g.header(GET_FREE_PROXIES_HEADER)
+    g.loop_spec(0, '''            invariant
+                it2.seq() == verif_src@,
+                forall|i: int| 0 <= i < verif_src@.len() ==> allocatable(*self.store, #[trigger] verif_src@[i]) && self.store.all_proxies@.values().contains(verif_src@[i]),
+                forall|i: int| 0 <= i < verif_acc@.len() ==> from_free(*self.store, #[trigger] verif_acc@[i]),''', itname='it2')
+    U.add_fn(g)
     U.add("}\n} // verus!\nfn main() {}\n")
     U.trust('HashSet::clone preserves the view (assume_specification); derived Clone of ProxyResource is structural')
 
